@@ -298,7 +298,21 @@ def _all_parked(pid):
     return True
 
 
+def leaf_pid(pid):
+    """Follow single-child launchers (runmon, valgrind wrappers) down to the process that does the work."""
+    for _ in range(4):
+        try:
+            kids = open('/proc/%d/task/%d/children' % (pid, pid)).read().split()
+        except Exception:
+            return pid
+        if len(kids) != 1:
+            return pid
+        pid = int(kids[0])
+    return pid
+
+
 def judge_hang(pid, quiet_s=8.0):
+    pid = leaf_pid(pid)
     """Deadlock evidence: no CPU progress over quiet_s and every thread sleeping."""
     t0 = _cpu_ticks(pid)
     if t0 is None:
@@ -350,7 +364,7 @@ def run(argv, stdin=None, env=None, cwd=None, timeout=120, stdout_path=None,
     ferr = open(stderr_path, 'wb') if stderr_path is not None else None
     try:
         proc = subprocess.Popen(argv, stdin=sin, stdout=sout, stderr=ferr if ferr else subprocess.PIPE,
-                                env=e, cwd=cwd, preexec_fn=preexec, pass_fds=pass_fds)
+                                env=e, cwd=cwd, preexec_fn=preexec, pass_fds=pass_fds, start_new_session=True)
     finally:
         if fin:
             fin.close()
@@ -432,10 +446,7 @@ def run(argv, stdin=None, env=None, cwd=None, timeout=120, stdout_path=None,
             except subprocess.TimeoutExpired:
                 continue
         if r.timed_out:
-            try:
-                proc.kill()
-            except Exception:
-                pass
+            kill_group(proc)
             proc.wait()
     done.set()
     for t in threads:
@@ -456,8 +467,25 @@ def run(argv, stdin=None, env=None, cwd=None, timeout=120, stdout_path=None,
             r.rc = rc
     r.out = b''.join(outbuf)
     r.err = b''.join(errbuf)
+    if r.timed_out is False and (r.sig is not None or r.rc is not None):
+        # make sure nothing of the process group lingers (e.g. a launcher died but its child did not)
+        try:
+            os.killpg(proc.pid, signal.SIGKILL)
+        except Exception:
+            pass
     r.wall = time.time() - t_start
     return r
+
+
+def kill_group(proc):
+    """Kill the child and everything it started (a launcher's child would otherwise keep the pipes open)."""
+    try:
+        os.killpg(proc.pid, signal.SIGKILL)
+    except Exception:
+        try:
+            proc.kill()
+        except Exception:
+            pass
 
 
 def pmap(fn, items, jobs=None):
